@@ -242,7 +242,7 @@ func (e *Engine) load(p Value, g *Term, pos token.Pos) Value {
 		}
 	}
 	if val == nil {
-		return Poison{"load through nil pointer at " + e.pos(pos)}
+		return Poison{"load through nil pointer at " + e.pos(pos), true}
 	}
 	return val
 }
@@ -412,7 +412,7 @@ func (e *Engine) binop(op token.Token, x, y Value, xt, yt types.Type, g *Term, p
 	case FloatV:
 		b, ok := y.(FloatV)
 		if !ok {
-			return Poison{"float binop with symbolic"}
+			return Poison{why: "float binop with symbolic"}
 		}
 		switch op {
 		case token.ADD:
@@ -529,7 +529,7 @@ func (e *Engine) convert(x Value, from, to types.Type, g *Term, pos token.Pos) V
 				if v.IsConst() {
 					return Str(string(rune(v.SVal())))
 				}
-				return Poison{"string(symbolic int)"}
+				return Poison{why: "string(symbolic int)"}
 			case SliceV:
 				// []byte / []rune -> string : concrete only
 				isRune := false
@@ -540,14 +540,14 @@ func (e *Engine) convert(x Value, from, to types.Type, g *Term, pos token.Pos) V
 				}
 				elems, ok := e.sliceElems(v)
 				if !ok {
-					return Poison{"string(symbolic bytes)"}
+					return Poison{why: "string(symbolic bytes)"}
 				}
 				if isRune {
 					rs := make([]rune, len(elems))
 					for i, el := range elems {
 						t, ok := el.(*Term)
 						if !ok || !t.IsConst() {
-							return Poison{"string(symbolic runes)"}
+							return Poison{why: "string(symbolic runes)"}
 						}
 						rs[i] = rune(t.SVal())
 					}
@@ -557,7 +557,7 @@ func (e *Engine) convert(x Value, from, to types.Type, g *Term, pos token.Pos) V
 				for i, el := range elems {
 					t, ok := el.(*Term)
 					if !ok || !t.IsConst() {
-						return Poison{"string(symbolic bytes)"}
+						return Poison{why: "string(symbolic bytes)"}
 					}
 					bs[i] = byte(t.val)
 				}
@@ -579,7 +579,7 @@ func (e *Engine) convert(x Value, from, to types.Type, g *Term, pos token.Pos) V
 					}
 					return FloatV{float64(v.val)}
 				}
-				return Poison{"float(symbolic int)"}
+				return Poison{why: "float(symbolic int)"}
 			}
 		}
 		if t.Kind() == types.UnsafePointer {
@@ -606,14 +606,14 @@ func (e *Engine) convert(x Value, from, to types.Type, g *Term, pos token.Pos) V
 			return ZExt(v, w)
 		case FloatV:
 			if math.IsNaN(v.f) || math.IsInf(v.f, 0) {
-				return Poison{"int(NaN/Inf)"}
+				return Poison{why: "int(NaN/Inf)"}
 			}
 			if _, s := intWidth(t); s {
 				return BV(w, uint64(int64(v.f)))
 			}
 			return BV(w, uint64(v.f))
 		case RefV:
-			return Poison{"pointer to int"}
+			return Poison{why: "pointer to int"}
 		}
 	case *types.Slice:
 		if sv, ok := x.(StringV); ok {
@@ -735,7 +735,7 @@ func (e *Engine) makeSlice(elem types.Type, lenV, capV Value, g *Term, pos token
 	l, ok1 := lenV.(*Term)
 	c, ok2 := capV.(*Term)
 	if !ok1 || !ok2 {
-		return Poison{"make slice with poison size"}
+		return Poison{why: "make slice with poison size"}
 	}
 	l, c = toBV64(l, true), toBV64(c, true)
 	n := e.boundOf(c, "make([]T) capacity", g, pos)
@@ -749,7 +749,7 @@ func (e *Engine) indexAddr(x, idx Value, xt, it types.Type, g *Term, pos token.P
 	}
 	i, ok := idx.(*Term)
 	if !ok {
-		return Poison{"index poison"}
+		return Poison{why: "index poison"}
 	}
 	i = toBV64(i, isSigned(it))
 	switch v := x.(type) {
@@ -795,7 +795,7 @@ func (e *Engine) indexValue(x, idx Value, xt, it types.Type, g *Term, pos token.
 	}
 	i, ok := idx.(*Term)
 	if !ok {
-		return Poison{"index poison"}
+		return Poison{why: "index poison"}
 	}
 	i = toBV64(i, isSigned(it))
 	switch v := x.(type) {
@@ -805,7 +805,7 @@ func (e *Engine) indexValue(x, idx Value, xt, it types.Type, g *Term, pos token.
 			if int(i.val) < len(v.e) {
 				return v.e[i.val]
 			}
-			return Poison{"array index out of range"}
+			return Poison{"array index out of range", true}
 		}
 		var res Value
 		for k := len(v.e) - 1; k >= 0; k-- {
@@ -890,7 +890,7 @@ func (f *Frame) slice(in *ssa.Slice, g *Term) Value {
 			out = append(out, StrAlt{al.c, al.s[l:h]})
 		}
 		if len(out) == 0 {
-			return Poison{"string slice out of bounds"}
+			return Poison{"string slice out of bounds", true}
 		}
 		return normStr(out)
 	case SliceV:
@@ -912,7 +912,7 @@ func (f *Frame) slice(in *ssa.Slice, g *Term) Value {
 		// *array
 		e.panicVC("nil dereference (slice of array)", in.Pos(), And(g, v.isNil()))
 		if len(v.alts) == 0 {
-			return Poison{"slice of nil array pointer"}
+			return Poison{"slice of nil array pointer", true}
 		}
 		n := BV(64, uint64(len(v.alts[0].o.(*Cell).elems)))
 		if lo == nil {
